@@ -10,3 +10,4 @@ package warnings
 //@   requires csvFile != nil
 //@   ensures [names-the-file-and-row] result.File == csvFile.name && result.RowNumber == csvFile.rowNumber && result.Kind == kind
 //@   ensures [header] result.HeaderContent == csvFile.headerContent
+//@   ensures [row-content-is-a-copy-of-the-current-row] csvFile.rowNumber != 0 && csvFile.currentRow != nil ==> len(result.RowContent) == len(csvFile.currentRow.cells) && fresh(result.RowContent) && (forall j int :: 0 <= j && j < len(result.RowContent) ==> result.RowContent[j] == csvFile.currentRow.cells[j])
